@@ -667,6 +667,12 @@ class ExprMixin:
                 return [self.key_node(kd[1], it.site) if kd[0] == "k" else d.args[i] for kd, i in self._dict_key_slots(d)]
         if it.op == "Zip":
             cols = [self.known_items(a, limit) for a in it.args]
+            for k_, a in enumerate(it.args):
+                # a branch-selected tuple of known length: its elements are the branch-selected elements
+                if cols[k_] is None and a.op == "Phi":
+                    n_ = self.seq_len(a)
+                    if n_ is not None and n_ <= limit:
+                        cols[k_] = [self.elem(a, i) for i in range(n_)]
             if all(c is not None for c in cols) and cols:
                 n = min(len(c) for c in cols)
                 return [self.mk("Tuple", tuple(c[i] for c in cols), None, it.site) for i in range(n)]
